@@ -9,7 +9,7 @@ import (
 	"verif/lib/spec"
 )
 
-func init() { registerTreeReplayer("C07/faulty-arguments") }
+func init() { registerTreeReplayer("C07/faulty-arguments", "C07/argument-keys") }
 
 // TestC07_FaultyArguments: every argument of a use is "bound to the value of v
 // evaluated at the place of use" - so an argument that cannot be evaluated (or
@@ -58,3 +58,64 @@ func TestC07_FaultyArguments(t *testing.T) {
 	}
 	c.ExhaustivePart(fmt.Sprintf("%d component files x %d places x (%d argument shapes x %d faults + 2 unbindable)", len(comps), len(places), len(args), len(faults)))
 }
+
+// TestC07_ArgumentKeys: "every k bound to the value of v" - for every key an
+// argument object can have, also one that no expression could read back: the
+// use renders the component file with its other arguments and its slots.
+func TestC07_ArgumentKeys(t *testing.T) {
+	keys := []string{`"data-id"`, `"2nd"`, `"og:title"`, `""`, `"имя"`, `"a b"`, `"v.w"`, `'x-y'`, `"in"`, `"true"`, `"nil"`, `"V"`, `_`, `_v`, `v2`, `"v"`}
+	comps := []struct{ name, src, out string }{{"reads-v", "<b>{{ v }}</b>[@slot]", "<b>1</b>[%s]"}, {"plain", "<b>static</b>", "<b>static</b>"}, {"slot-only", "@slot", "%s"}}
+	places := []struct{ name, pre, post, out string }{
+		{"top", "<p>", "</p>", "<p>%s</p>"}, {"in-each", "@each(i in [1, 2])", "@end", "%s%s"}, {"in-if", "@if(true)", "@end", "%s"}, {"in-insert", "@use(\"~lay\")@insert(\"r\")", "@end", "<html>%s</html>"},
+	}
+	c := harness.New(t, "C07", "argument-keys",
+		fmt.Sprintf("a use '@component(\"c\", {KEY: 7, v: 1})' for %d spellings of KEY - quoted keys that are no identifiers (a dash, a digit first, a colon, a blank, a dot, empty, non-ASCII), quoted keywords, an upper-case namesake, underscores - before and after v, with and without a slot body, x %d component files x %d places: the component renders with v and its slot body. Exhaustive. Non-trivial: a key that is no identifier. Distinct by construction.", len(keys), len(comps), len(places)))
+	defer c.Finish()
+	idx := 0
+	for _, k := range keys {
+		for _, cp := range comps {
+			for _, pl := range places {
+				for form := 0; form < 3; form++ {
+					idx++
+					if !harness.Mine(idx) {
+						continue
+					}
+					arg, slotBody := "{"+k+": 7, v: 1}", ""
+					if form == 1 {
+						arg = "{v: 1, " + k + ": 7}"
+					}
+					if k == `"v"` {
+						arg = "{" + k + ": 1}"
+					}
+					use := "@component(\"c\", " + arg + ");"
+					if form == 2 {
+						use, slotBody = "@component(\"c\", "+arg+")\n@slot S@end\n@end", " S"
+					}
+					if cp.name == "plain" && form == 2 {
+						continue // a slot the file does not declare is an error of its own
+					}
+					rendered := cp.out
+					if strings.Contains(rendered, "%s") {
+						rendered = fmt.Sprintf(rendered, slotBody)
+					}
+					if form != 2 {
+						rendered += ";"
+					}
+					want := strings.ReplaceAll(pl.out, "%s", rendered)
+					files := map[string]string{"c": cp.src, "layouts/lay": "<html>@reserve(\"r\")</html>", "page": pl.pre + use + pl.post}
+					cs := treeCase{Files: files, Dir: "t", Ext: ".tw", Page: "page", Want: want_(want), Note: cp.name + " " + pl.name}
+					c.CaseEnum(strings.HasPrefix(k, `"`) || strings.HasPrefix(k, "'"), "place:"+pl.name)
+					if idx%41 == 0 {
+						c.Sample(cs.sample())
+					}
+					if r, f := runTreeCase(c, cs); f != "" {
+						c.Fail(t, kindOf(f), cs, cs.Want, r, f)
+					}
+				}
+			}
+		}
+	}
+	c.ExhaustivePart(fmt.Sprintf("%d keys x %d component files x %d places x 3 forms of the use", len(keys), len(comps), len(places)))
+}
+
+func want_(s string) want { return want{St: "ok", Kind: "text", S: s} }
